@@ -32,7 +32,8 @@ RULE = ("one unit = one writer configuration (FileAccessor flat/deep x gzip "
         "names with dots, nested directories and colons, looked up (all ten) "
         "by readers of every layout, together with directory names that must "
         "not exist as files, and name/nested-name pairs on gzip layouts. "
-        "URL family: 6 directory names (spaces, non-ASCII, %, +, nested) x "
+        "Contents family: payloads starting with the gzip magic, gzip streams "
+        "as payloads, payloads beyond 1 MiB and 2 MiB. URL family: 6 directory names (spaces, non-ASCII, %, +, nested) x "
         "5 spellings (path, file://, file://localhost, precomputed://file://, "
         "precomputed://path) for the writer x 5 for the reader. Confinement: 14 name spellings x {store, fetch, exists} x "
         "both accessor classes with a sentinel sibling directory. "
@@ -54,6 +55,14 @@ KEY = "k"
 FILE_NAMES = ["info", "d/f", "m/10:0"]
 CHUNKS = [(0, 2, 0, 2, 0, 2), (2, 3, 0, 2, 0, 2)]
 CONTENTS = [b"", b"x", b"yy" * 40]
+N_BFS_CONTENTS = 3
+# contents used by the "contents" family only: payloads that look like gzip
+# streams, and payloads beyond 1 MiB / 2 MiB
+CONTENTS += [b"\x1f\x8b" + bytes(range(30)),
+             gzip_mod.compress(b"inner payload"),
+             bytes((i * 7 + i // 255) % 256 for i in range(4099)) * 256
+             + b"!",                                  # 1 MiB + 4 KiB + ...
+             b"\x1f\x8b\x08" + b"z" * (2 * 1024 * 1024 + 5)]
 MIME = {"info": "application/json", "d/f": "application/octet-stream",
         "m/10:0": "application/json"}
 CHUNK_MIME = {CHUNKS[0]: "application/octet-stream", CHUNKS[1]: "image/jpeg"}
@@ -94,7 +103,7 @@ def menu(cfg, family):
         if family == "mixed-mime" and n == "d/f":
             mimes = ["application/octet-stream", "application/json"]
         for mi in mimes:
-            for ci in range(len(CONTENTS)):
+            for ci in range(N_BFS_CONTENTS):
                 for ow in (False, True):
                     ops.append(["store_file", n, ci, mi, ow])
     if cfg["cls"] == "file":
@@ -103,7 +112,7 @@ def menu(cfg, family):
             if family == "mixed-mime" and c == CHUNKS[0]:
                 mimes = ["application/octet-stream", "image/jpeg"]
             for mi in mimes:
-                for ci in range(len(CONTENTS)):
+                for ci in range(N_BFS_CONTENTS):
                     for ow in (False, True):
                         ops.append(["store_chunk", list(c), ci, mi, ow])
     return ops
@@ -506,6 +515,38 @@ DIR_NAMES = ["a.b", "mesh", "v1.0", KEY]
 NESTED = [("mesh/7:0", "mesh"), ("mesh", "mesh/7:0"), ("a.b/c", "a.b")]
 
 
+def contents_family(cfg, col):
+    """payloads that start with the gzip magic number or are gzip streams
+    themselves, and payloads of more than 1 MiB and 2 MiB: stored as a file
+    (two MIME types) and as a chunk, overwritten once by another of them"""
+    base = {"config": cfg, "family": "contents"}
+    before = col.r["violation_count"]
+    runs = 0
+    extra = list(range(N_BFS_CONTENTS, len(CONTENTS)))
+    for ci in extra:
+        other = extra[(extra.index(ci) + 1) % len(extra)]
+        hists = [[["store_file", "d/f", ci, "application/octet-stream",
+                   False]],
+                 [["store_file", "m/10:0", ci, "application/json", False]],
+                 [["store_file", "d/f", ci, "application/octet-stream",
+                   False],
+                  ["store_file", "d/f", other, "application/octet-stream",
+                   True]]]
+        if cfg["cls"] == "file":
+            hists.append([["store_chunk", list(CHUNKS[0]), ci,
+                           "application/octet-stream", False]])
+            hists.append([["store_chunk", list(CHUNKS[1]), ci, "image/jpeg",
+                           False]])
+        for h in hists:
+            run_history(cfg, h, col, base)
+            runs += 1
+    col.r["states"] += runs
+    col.r["transitions"] += runs
+    col.r["traces"] += runs
+    bad = col.r["violation_count"] - before
+    col.ev(runs, runs, "contents-ok" if not bad else "contents-violating")
+
+
 def names_family(cfg, col):
     """every single name (2 MIME types) and every ordered pair of distinct
     names from NAME_ALPHA stored through one configuration; all ten names
@@ -647,6 +688,7 @@ def units(tier):
                   "depth": depth - 1})
     for cfg in writer_configs():
         u.append({"kind": "names", "config": cfg})
+        u.append({"kind": "contents", "config": cfg})
     u.append({"kind": "confinement"})
     u.append({"kind": "urls"})
     return u
@@ -666,6 +708,11 @@ def run_unit(u):
     col = Collector()
     if u["kind"] == "urls":
         _eval_urls(col)
+    elif u["kind"] == "contents":
+        contents_family(u["config"], col)
+        col.sample({"config": u["config"], "family": "contents",
+                    "history": [["store_file", "d/f", 3,
+                                 "application/octet-stream", False]]})
     elif u["kind"] == "names":
         names_family(u["config"], col)
         col.sample({"config": u["config"], "family": "names",
